@@ -194,10 +194,18 @@ def run(ctx):
                 "some monitor received a copy; distinct = distinct event lists" % len(mg.scenarios()),
         "samples": samples, "input_distribution": dist, "traces_validated_against_impl": validated, "steps_compared": steps_total,
         "disagreements_checked": disagreements, "illformed_events": illformed, "paired_runs_compared": paired_compared, "exhaustive": False,
-        "explanation": "theorems: see notes/C18.md; correspondence: what every connection (monitors included) reads from its socket, step by step, real dbus-daemon = "
-                       "extracted Monitor.step; the specification oracle (harness/py/monitor_check.py: copies per monitor, EOF for a monitor that sends, final "
-                       "ownership) is evaluated on the daemon's observed behaviour for every history, and ordinary clients' observations are compared between the "
-                       "paired runs without reference to the model",
+        "explanation": "PROVED (Coq, all histories of the model): every item the bus produces while x is a monitor reaches x exactly once iff some rule of its "
+                       "filter accepts it (declarative rule semantics, registry at capture time) and bears the true sender; such items are never delivered to or "
+                       "matched for x; any event by a monitor closes it without any other effect; monitors own no names, have no ordinary rules and are in no pending "
+                       "reply; the switch leaves exactly the requested rules; the run where x becomes a monitor and the run where x disconnects deliver the same lists to "
+                       "every ordinary connection at every later step and permuted lists at the switch step (monitors are erasable).  Each of the first three clauses "
+                       "holds except for messages libdbus consumes on the bus's side of the socket (no DESTINATION and interface Peer or not a signal): full statements "
+                       "kept and refuted by witnesses that this check replays on the daemon (F18a, F18b); F18c (duplicate during the switch) likewise.  EXPLORED ONLY "
+                       "(correspondence run, not proved): that dbus-daemon behaves like the model - per step, per connection, the exact sequence of messages read from "
+                       "every socket (monitors included), EOF, final ownership - on the generated histories; byte-for-byte intactness of copies; sanitizer-clean runs; "
+                       "independent oracles on the daemon's behaviour (copies per monitor of every message the harness knows was processed, EOF for a monitor that "
+                       "sends, no monitor in any owner queue, ordinary clients' reads equal between the paired runs).  Not covered: OOM/cancel paths, limits, fds, "
+                       "activation, LSM checks, the privilege test of BecomeMonitor, concurrency between writers, match keys path/arg*",
     })
     rep.assumptions = [
         "model coq/Monitor/Monitor.v is hand-written after bus/connection.c, bus/driver.c, bus/dispatch.c, bus/signals.c, bus/services.c; tied to the code by the correspondence run only",
